@@ -227,6 +227,43 @@ def limit_cons(r, dim, topo, chain):
     return cs
 
 
+
+# ---------------------------------------------------------------------------------------------------------------
+# the smaller argument as the EMPTY set in every emptiness state (harness: newe)
+POLY_ESTATES = ["addc", "refine", "cons", "meet", "queried", "minq", "pend"]
+SHAPE_ESTATES = ["addc", "refine", "cons", "meet", "queried", "minq"]
+
+
+def empty_probe(L, fresh, r, topo, dim, w, x, routes, estates, cs_text, bounded):
+    """x widened by an empty y presented in several emptiness states: same results, same token consumption."""
+    x2 = fresh(); L.append("mk %d %s %d %d" % (x2, r.choice(routes), x, r.randrange(1 << 20)))
+    states = ["marked"] + r.sample(estates, 3)
+    base = None
+    for k, st in enumerate(states):
+        ye = fresh(); L.append("newe %d %s %d %s %d" % (ye, topo, dim, st, r.randrange(1 << 20)))
+        xi = x if k % 2 == 0 else x2
+        p = fresh(); L.append("widen %s %d %d %d -1" % (w, p, xi, ye))
+        t = fresh(); L.append("widen %s %d %d %d 2 plain %d" % (w, t, xi, ye, p))
+        ids = [p, t]
+        if cs_text is not None:
+            l = fresh(); L.append("lim %s limited %d %d %d -1 %s plain %d" % (w, l, xi, ye, cs_text, p)); ids.append(l)
+            lt = fresh(); L.append("lim %s limited %d %d %d 1 %s plain %d" % (w, lt, xi, ye, cs_text, p)); ids.append(lt)
+            if bounded:
+                b = fresh(); L.append("lim %s bounded %d %d %d -1 %s plain %d" % (w, b, xi, ye, cs_text, p)); ids.append(b)
+        if base is None:
+            base = ids
+        else:
+            for a, b in zip(base, ids):
+                L.append("#! same %d %d" % (a, b))
+            L.append("#! sametok %d %d" % (base[1], ids[1]))
+            if cs_text is not None: L.append("#! sametok %d %d" % (base[3], ids[3]))
+    # both arguments empty, in different states
+    xe = fresh(); L.append("newe %d %s %d %s %d" % (xe, topo, dim, r.choice(estates), r.randrange(1 << 20)))
+    ye = fresh(); L.append("newe %d %s %d %s %d" % (ye, topo, dim, r.choice(["marked"] + estates), r.randrange(1 << 20)))
+    p = fresh(); L.append("widen %s %d %d %d -1" % (w, p, xe, ye))
+    t = fresh(); L.append("widen %s %d %d %d 1 plain %d" % (w, t, xe, ye, p))
+
+
 def make_case(seed, cid, quick=True, family=None, dim=None, topo=None, widenings=WIDENINGS):
     r = random.Random(seed)
     family = family or r.choice(["vertex"] * 4 + ["climb"] * 3 + ["parabola"] * 2 + ["cone"] * 2 + ["bounds"] * 5)
@@ -292,6 +329,10 @@ def make_case(seed, cid, quick=True, family=None, dim=None, topo=None, widenings
                     pi = r.choice([0, 1, 2])
                     i = fresh(); L.append("lim %s %s %d %d %d %d %s plain %d" % (w, r.choice(["limited", "bounded"]), i, pairs[pi][0], pairs[pi][1], r.choice([0, 1, 2]), fmt_cons(cs), res[pi]))
             X[w] = nx; iterates[w].append(nx)
+    if r.random() < 0.5:
+        cs = limit_cons(r, dim, topo, ch)
+        for w in widenings:
+            empty_probe(L, fresh, r, topo, dim, w, X[w], ROUTES, POLY_ESTATES, fmt_cons(cs), True)
     # the multiset ordering on the certificates met along the way
     allit = sorted(set(i for w in widenings for i in iterates[w]))
     # the transcribed comparisons against the library's on arbitrary pairs (the model is the code as written,
@@ -401,6 +442,12 @@ def make_shape_case(seed, cid, quick=True, kind=None):
                     pi = r.choice([0, 1, 2])
                     i = fresh(); L.append("lim %s limited %d %d %d %d %s plain %d" % (w, i, pairs[pi][0], pairs[pi][1], r.choice([0, 1, 2]), fmt_cons(cs), res[pi]))
             X[w] = res[0]
+    if r.random() < 0.7:
+        cs = []
+        for _ in range(r.randint(2, 3)):
+            cs.append((">=", r.randint(-2, 12), shape_dir(r, kind, n)))
+        for w in SHAPE_WIDENINGS[kind]:
+            empty_probe(L, fresh, r, kind, n, w, X[w], SHAPE_ROUTES, SHAPE_ESTATES, fmt_cons(cs), False)
     L.append("end")
     return L
 
